@@ -242,3 +242,49 @@ class OnS2F29:
                     out[f"unknown-{j}"] = (r["ECID"] is req[j] and r["ECNAME"] == "" and r["ECMIN"] == "" and r["ECMAX"] == "" and r["ECDEF"] == ""
                                            and r["UNITS"] == "")
         return out
+
+
+# ===================================================================== S1F11: the namelist of the requested status variables (bounded shape)
+from secsgem.gem.status_variable import StatusVariable  # noqa: E402
+
+
+@contract("secsgem.secs.functions.streams_functions:StreamsFunctions.decode", "C13", name="DecodeS1F11Abs")
+class DecodeS1F11Abs:
+    """ASSUMED (C03): the decoded S1F11 is the list of its SVID items (ghost: the request the unit quantifies over)."""
+
+    abstract = True
+    returns = Same("self.g_req")
+
+
+@contract("secsgem.gem.status_data_collection_capability:StatusDataCollectionCapability._on_s01f11", "C13")
+class OnS1F11:
+    """S1F11 naming 1 or 2 status variables (bounded shape; any ids, any table, any coincidence of the ids): S1F12 has one
+    entry per requested id, in request order - id, name and unit of a known variable, the id with empty texts for an
+    unknown one.  The request naming no id (all variables) and longer requests: bounded pass."""
+
+    cases = [(f"n{n}", {"n": n}) for n in (1, 2)]
+    uses = [DecodeS1F11Abs, StreamFunctionAbs13, NewFunctionAbs13]
+
+    def inputs(n):
+        return {"self": Obj(GemEquipmentHandler,
+                            _status_variables=MapOf(StatusVariable, svid=Int, name=Int, unit=Int),
+                            _settings=Obj(Settings, streams_functions=Obj(StreamsFunctions, g_req=FixedList(*[Obj(AbsItem, g_value=Int) for _ in range(n)])))),
+                "_handler": Const(None), "message": Const(None)}
+
+    def raises():
+        return {}
+
+    def ensures(self, old, result):
+        t0 = old.self._status_variables
+        req = self._settings.streams_functions.g_req
+        rows = result.g_value
+        out = {"s1f12": result.g_stream == 1 and result.g_function == 12, "one-entry-per-requested-id": len(rows) == len(req)}
+        if len(rows) == len(req):
+            for j in range(len(req)):
+                i = req[j].g_value
+                r = rows[j]
+                if i in t0:
+                    out[f"known-{j}"] = r["SVID"] == t0[i].svid and r["SVNAME"] == t0[i].name and r["UNITS"] == t0[i].unit
+                else:
+                    out[f"unknown-{j}"] = r["SVID"] is req[j] and r["SVNAME"] == "" and r["UNITS"] == ""
+        return out
